@@ -203,3 +203,73 @@ def run_liveness(prop, mod, res):
     res.liveness = out
     res.floor('LIVENESS', len(cases))
     return out
+
+
+# ---------------------------------------------------------------------------
+# stored seeded changes (seeded/<prop>-*/patch.diff), replayed in memory
+# ---------------------------------------------------------------------------
+
+VERIF = os.path.dirname(os.path.dirname(os.path.abspath(__file__)))
+
+
+def _patched_sources(patch):
+    """{relpath: new source} of a stored unified diff applied to copies of the current /repo files, or None when the
+    patch no longer applies (the code it was written against has changed)."""
+    import shutil
+    import subprocess
+    import tempfile
+    with open(patch, encoding='utf-8') as fh:
+        files = [ln[6:].strip() for ln in fh if ln.startswith('+++ b/')]
+    tmp = tempfile.mkdtemp(prefix='verif-seed-')
+    try:
+        for rel in files:
+            src = os.path.join(REPO, rel)
+            if not os.path.exists(src):
+                return None
+            os.makedirs(os.path.dirname(os.path.join(tmp, rel)), exist_ok=True)
+            shutil.copy(src, os.path.join(tmp, rel))
+        r = subprocess.run(['patch', '-p1', '-s', '-f', '--no-backup-if-mismatch', '-d', tmp, '-i', patch],
+                           capture_output=True, text=True)
+        if r.returncode != 0:
+            return None
+        out = {}
+        for rel in files:
+            with open(os.path.join(tmp, rel), encoding='utf-8') as fh:
+                out[rel] = fh.read()
+        return out
+    finally:
+        shutil.rmtree(tmp, ignore_errors=True)
+
+
+def run_seeded(prop, mod, res):
+    """Every stored seeded change of this property that the index records as reported must still be reported."""
+    import glob
+    import json
+    clean_keys = {f.key for f in res.findings}
+    out = []
+    n = 0
+    for d in sorted(glob.glob(os.path.join(VERIF, 'seeded', f'{prop}-*'))):
+        name = os.path.basename(d)
+        try:
+            with open(os.path.join(d, 'meta.json'), encoding='utf-8') as fh:
+                meta = json.load(fh)
+        except (OSError, ValueError):
+            continue
+        if not any(c.startswith(prop + ':') for c in meta.get('caught_by', [])):
+            out.append({'seed': name, 'status': 'recorded as not reported by this property (see seeded/INDEX.md)'})
+            continue
+        srcs = _patched_sources(os.path.join(d, 'patch.diff'))
+        if srcs is None:
+            out.append({'seed': name, 'status': 'patch no longer applies to the current tree; skipped'})
+            continue
+        res2 = mod.run(load_repo(overrides=srcs), 'quick')
+        new = [f for f in res2.findings if f.key not in clean_keys]
+        ok = bool(new)
+        n += 1
+        out.append({'seed': name, 'status': 'reported' if ok else 'NOT REPORTED', 'rules': sorted({f.rule for f in new})})
+        res.oblige('SEEDED', f'stored seeded change {name} is reported', ok, nontrivial=True)
+        if not ok:
+            raise AnalysisError(f'seeded-change regression: {prop} no longer reports the stored change seeded/{name}')
+    res.seeded = out
+    res.notes['seeded_changes_replayed'] = out
+    return n
